@@ -476,11 +476,11 @@ def weave(src, vspecs, vacuity=False, split=None, isolate=()):
         while spec_lines and spec_lines[-1][0].strip() == '':
             spec_lines.pop()
         if spec_lines:
-            text, metas = _mk(spec_lines, fnid, 'spec' if body_close is not None else 'assumed', e['props'])
+            text, metas = _mk(spec_lines, fnid, 'spec' if (body_close is not None and 'external_body' not in (e.get('attr') or '')) else 'assumed', e['props'])
             edits.append(Edit(sig_end, '\n' + text + '\n', 2, [None] + metas + [None]))
         tm = re.match(r"\s*impl(?:<[^>]*>)?\s+([\w:]+)(?:<[^{]*>)?\s+for\s+", e['block'])
         fn_entries.append({'id': fnid, 'props': e['props'], 'kw': kw, 'close': body_close if body_close else sig_end,
-                           'has_body': body_close is not None, 'where': e['where'], 'mod': e['mod'], 'name': e['name'],
+                           'has_body': body_close is not None and 'external_body' not in (e.get('attr') or ''), 'where': e['where'], 'mod': e['mod'], 'name': e['name'],
                            'impl_of_trait': tm.group(1).split('::')[-1] if tm else None,
                            'decl_of_trait': block_type_name(e['block']) if re.match(r'\s*(pub\s+)?trait\b', e['block']) else None})
         if body_close is None:
